@@ -6,6 +6,7 @@ vectorised branch, per-element branch, result container; `_ValueGenerator`; `Sca
 lengths 0..6 (equal and different), Scalar x Scalar on the same quantity pairs, FromScalars + indexing and
 GetValues / GetValue, on the real code and on the model (`drv_ops`)."""
 import math
+from fractions import Fraction
 
 import _ops_common as oc
 from _ops_common import model_line, show  # noqa: F401
@@ -298,11 +299,59 @@ def _apply(f, x, y):
             return oc.PYOP[f](x, y)
 
 
+ARITH = (ZeroDivisionError, OverflowError)
+
+
+def _silently_wrong(ctx, f, q1, q2, x, y, got):
+    """a zero or non-finite result although the exact one is non-zero and inside the float range"""
+    if f == "floordiv":
+        z = oc.exact_result(ctx, "div", q1, q2, x, y)
+        if isinstance(z, Fraction) and not math.isfinite(got):
+            return "the result is finite: exact operands and quotient are inside the float range"
+        return None
+    z = oc.exact_result(ctx, f, q1, q2, x, y)
+    if not isinstance(z, Fraction):
+        return None
+    if not math.isfinite(got):
+        return "the result is finite: exact operands and result are inside the float range"
+    if got == 0.0 and z != 0 and f in ("mul", "div"):
+        return "the result is not zero: the exact result is non-zero and inside the float range"
+    return None
+
+
+def _oracle_arith(t, ctx):
+    """Scalar op Scalar: an arithmetic error or a silently zero / infinite result is legitimate only for a zero
+    divisor or magnitudes that leave the float range"""
+    from barril.units import Scalar  # noqa: F401
+
+    f, a, b = t["f"], t["a"], t["b"]
+    x, y = oc.val(a["x"]), oc.val(b["x"])
+    form = "%s %s %s" % (oc.render(a), oc.OPSIGN[f], oc.render(b))
+    try:
+        A, B = oc.build(a), oc.build(b)
+    except Exception:
+        return None
+    try:
+        r = _apply(f, A, B)
+    except ARITH as e:
+        z = oc.exact_result(ctx, f, a["q"], b["q"], x, y)
+        if isinstance(z, Fraction):
+            return dict(clause="the operation is defined: exact operands and result are non-zero and inside the float range",
+                        form=form, raised=repr(e), exact=float(z))
+        return None
+    except Exception:
+        return None
+    why = _silently_wrong(ctx, f, a["q"], b["q"], x, y, r.value) if hasattr(r, "value") else None
+    return dict(clause=why, form=form, got=r.value) if why else None
+
+
 def _oracle_binop(t, ctx):
     import numpy as np
     from barril.units import Array, Scalar
 
     f, a, b = t["f"], t["a"], t["b"]
+    if a["t"] == "scalar" and b["t"] == "scalar":
+        return _oracle_arith(t, ctx)
     if a["t"] != "array" or b["t"] != "array":
         return None
     try:
@@ -323,21 +372,35 @@ def _oracle_binop(t, ctx):
         return None
     # the same operation on the corresponding Scalars (and on 1.0, 1.0 for the quantity of an empty result)
     qa, qb = A.GetQuantity(), B.GetQuantity()
-    scal, scal_err = [], None
-    for x, y in list(zip(xs, ys)) + ([] if xs else [(1.0, 1.0)]):
+    pairs = list(zip(xs, ys)) + ([] if xs else [(1.0, 1.0)])
+    scal, scal_err, err_pair = [], None, None
+    for x, y in pairs:
         try:
             scal.append(_apply(f, Scalar.CreateWithQuantity(qa, value=float(x)), Scalar.CreateWithQuantity(qb, value=float(y))))
         except Exception as e:
-            scal_err = e
+            scal_err, err_pair = e, (x, y)
             break
     if scal_err is not None:
-        if raised is None and not isinstance(scal_err, ZeroDivisionError):
+        if isinstance(scal_err, ARITH):
+            # legitimate only for a zero divisor / magnitudes that leave the float range (exact, from the table slopes)
+            z = oc.exact_result(ctx, f, a["q"], b["q"], err_pair[0], err_pair[1])
+            if isinstance(z, Fraction):
+                return dict(clause="the operation is defined: exact operands and result are non-zero and inside the float range",
+                            form=form, elements=[float(err_pair[0]), float(err_pair[1])], raised=repr(scal_err), exact=float(z))
+            return None
+        if raised is None:
             return dict(clause="the Scalar operation fails, the Array operation does not", form=form, scalar_error=repr(scal_err))
         return None
+    for (x, y), sc in zip(pairs, scal):
+        why = _silently_wrong(ctx, f, a["q"], b["q"], x, y, sc.value)
+        if why:
+            return dict(clause=why, form=form, elements=[float(x), float(y)], got=sc.value)
     if any(not math.isfinite(s.value) for s in scal):
         return None
     if raised is not None:
-        if isinstance(raised, ZeroDivisionError):
+        if isinstance(raised, ARITH):
+            if all(isinstance(oc.exact_result(ctx, f, a["q"], b["q"], x, y), Fraction) for x, y in pairs):
+                return dict(clause="every Scalar operation succeeds, the Array operation raises", form=form, raised=repr(raised))
             return None
         return dict(clause="every Scalar operation succeeds, the Array operation raises", form=form, raised=repr(raised))
     if not isinstance(r, Array):
